@@ -136,6 +136,8 @@ class Layout:
                 # any order of the directives; several @check keep their relative order (it is significant)
                 flags = [d for d in ds if d[0] != "@check"]
                 chk = [d for d in ds if d[0] == "@check"]
+                if flags and self.rnd.random() < 0.15:
+                    flags.append(self.rnd.choice(flags))      # a flag directive given twice means what it means once
                 self.rnd.shuffle(flags)
                 ds = flags
                 pos = sorted(self.rnd.randint(0, len(flags)) for _ in chk)
